@@ -122,18 +122,43 @@ def hash_functions(funcs):
 # ---------------------------------------------------------------------------------------------------------
 
 
+class CaseTimeout(BaseException):
+    pass
+
+
 def _worker(args):
     modname, case_id, tier, seed = args
     t0 = time.time()
+    import signal
+
+    limit = int(os.environ.get("VERIF_CASE_TIMEOUT", "900" if tier == "quick" else "5400"))
+
+    def _alarm(signum, frame):
+        raise CaseTimeout()
+
+    try:
+        signal.signal(signal.SIGALRM, _alarm)
+        signal.alarm(limit)
+    except ValueError:  # not in the main thread
+        pass
     try:
         mod = importlib.import_module(modname)
         from . import solve as _solve
         _solve.VIOLATION_BUDGET["left"] = 4
         res = mod.run_case(case_id, tier, seed)
         return dict(case=case_id, results=res, wall=time.time() - t0, crash=None)
+    except CaseTimeout:
+        # wall-clock budget of one case used up: undecided (never a verdict)
+        return dict(case=case_id, results=[result(f"case-wall-clock-budget[{case_id}]", modname, "unknown", text=f"case exceeded {limit}s", case=case_id)],
+                    wall=time.time() - t0, crash=None)
     except BaseException as e:  # noqa
         return dict(case=case_id, results=[], wall=time.time() - t0,
                     crash="".join(traceback.format_exception(type(e), e, e.__traceback__))[-3000:])
+    finally:
+        try:
+            signal.alarm(0)
+        except Exception:
+            pass
 
 
 def _safe(name):
